@@ -311,6 +311,21 @@ def run(res, tier):
                 has_def = any(x['k'] == 'DefaultStmt' for x in sw.walk())
                 res.ob('HOSTILE', f.where(sw), 'switch over %s in %s has a default' % (c0.get('n'), f.q.split('::')[-1]), has_def, function=f.q, key='HOSTILE|%s|default:%s' % (f.q, c0.get('n')), nontrivial=False,
                        message='a switch over the archived operator code in %s has no default: an out-of-range code from a hostile archive leaves the result undefined' % f.q)
+    # ---- a lazily built matcher cache is dropped unconditionally whenever the filter is re-initialised (this is what backs the frozen ARCHIVE-SYM exception for _matcher)
+    n_fm = 0
+    for f in sorted((f for f in fx.funcs.values() if f.full and f.q.endswith('::SetFromArchive')), key=lambda f: (f.file, f.line)):
+        cls_ = f.cls or ''
+        has_cache = any(g.full and g.cls == cls_ and g.q.endswith('::FreeMatcher') for g in fx.funcs.values())
+        if not has_cache:
+            continue
+        n_fm += 1
+        fm = [c for c in f.walk() if c.is_call() and (c.get('q') or '').endswith('::FreeMatcher')]
+        okf = bool(fm) and C.must_pass(f, (f.entry, -1), set(P.pos_of(f, c) for c in fm))[0]
+        res.ob('ARCHIVE-SYM', f.where(), '%s drops the cached matcher on every path' % f.q, okf, function=f.q, key='ARCHIVE-SYM|%s|free-matcher' % f.q,
+               message='%s can return without FreeMatcher(): the matcher compiled from the previous pattern survives, so the restored filter shows the new pattern (IsEqualTo, Print) but decides with the '
+                       'old one' % f.q)
+    if n_fm < 1:
+        raise AnalysisBroken('ARCHIVE-SYM: no SetFromArchive of a class with a matcher cache found')
     # ---- INDEX-USED: a value filter looks at the item its index names
     res.rule('INDEX-USED', 'in every Matches() of a ValueQueryFilter subclass the field named by GetFieldName() is read with GetIndex() as the item index (never through an overload that implies item 0)', floor=4)
     n_iu = 0
